@@ -103,6 +103,20 @@ def _run(case, ctx):
     g.verbose = 0
     F = np.asarray(g.kernel())
     ctx.finite(F, ("forces",))
+    if case["uks"] or mol.spin != 0:
+        # exact metamorphic relation, no extra SCF: exchanging the roles of the two spin channels (orbitals, occupations
+        # and orbital energies handed to the gradient driver in swapped order) is the same physical state, so the
+        # forces are the same numbers.  Catches a beta-channel term contracted with alpha-channel data.
+        gs = mf.nuc_grad_method()
+        gs.grid_response = case["grid_response"]
+        gs.verbose = 0
+        Fs = np.asarray(gs.kernel(mo_energy=np.asarray(mf.mo_energy)[::-1].copy(), mo_coeff=np.asarray(mf.mo_coeff)[::-1].copy(),
+                                  mo_occ=np.asarray(mf.mo_occ)[::-1].copy()))
+        polarised = bool(np.max(np.abs(np.asarray(mf.mo_occ)[0] - np.asarray(mf.mo_occ)[1])) > 0)
+        ctx.event("spin_swap_forces:" + ("open_shell" if polarised else "closed_shell"))
+        ctx.measure("force_spin_swap", float(np.max(np.abs(Fs - F))) / 1e-6)
+        ctx.close(Fs, F, ("force_spin_swap", fam, "open_shell" if polarised else "closed_shell",
+                          "grid_response" if case["grid_response"] else "no_grid_response"), rtol=0, atol=1e-6)
     dm0 = mf.make_rdm1()
     h = 2e-3
     es = {}
@@ -153,7 +167,8 @@ RULE = ("chemically reasonable small molecules (15 templates with jittered bond 
         "RKS/UKS x density fitting on/off x a drawn unit displacement u over all 3*natm coordinates: SCF converged to 1e-10 at "
         "the geometry and at +-h u, +-h/2 u (h = 2e-3 bohr, same initial guess chain, no density pruning of the grid); "
         "oracle: 4th-order finite difference of the converged total energy vs u.F from nuc_grad_method().kernel(); the 2nd- and "
-        "4th-order estimates must agree (else unresolved); ")
+        "4th-order estimates must agree (else unresolved); unrestricted cases additionally: forces recomputed with the two "
+        "spin channels handed to the gradient driver in swapped order equal the forces (1e-6 Eh/bohr); ")
 
 
 @subcheck("C17", "forces_no_grid_response", st_noresp, quick=24, thorough=320, tolerances=TOL, shrink=False,
@@ -175,6 +190,55 @@ def forces_grid_response_sl(case, ctx):
           rule=RULE + "grid_response=True, nonlocal density features (full response of the feature pipeline): same tolerances")
 def forces_grid_response_nldf(case, ctx):
     _run(case, ctx)
+
+
+# ------------------------------------------------------------------------------------------------
+@st.composite
+def st_swap(draw):
+    model = draw(G.st_model(families=("sl", "nldf", "nldf"), max_kernels=1, allow_xc2=True))
+    for k in model["kernels"]:
+        k["amp"] = min(k["amp"], 0.5)
+    mol = draw(G.st_mol_chem(max_atoms=3 if not model["nldf"] else 2, max_elec=10, levels=(0, 1), open_shell=True))
+    calc = draw(G.st_calc())
+    calc["xmix"] = draw(st.sampled_from([0.25, 0.5, 1.0]))
+    return {"mol": mol, "model": model, "calc": calc, "uks": True, "df": draw(st.booleans()),
+            "grid_response": draw(st.booleans())}
+
+
+@subcheck("C17", "forces_spin_swap", st_swap, quick=40, thorough=400, tolerances=TOL, shrink=False,
+          rule="open-shell templates (OH, NH, NH2, BeH) x semilocal / NLDF synthetic models x DF on/off x grid_response "
+               "on/off, one converged UKS calculation per case: the forces recomputed with the two spin channels (orbitals, "
+               "occupations, orbital energies) handed to the gradient driver in swapped order equal the forces to 1e-6 "
+               "Eh/bohr (exact relation, no finite difference: many cases per second of budget); with grid response the "
+               "forces also sum to zero (1e-8); non-trivial = always (alpha and beta occupations differ)")
+def forces_spin_swap(case, ctx):
+    mspec = case["mol"]
+    fam = "nldf" if case["model"]["nldf"] else "sl"
+    ctx.event("family=" + fam)
+    ctx.event("sl=" + case["model"]["sl"])
+    ctx.event("grid_response" if case["grid_response"] else "no_grid_response")
+    atoms0 = [[a, list(p)] for a, p in mspec["atoms"]]
+    mol, mf = _scf(case, atoms0)
+    if not mf.converged:
+        ctx.event("scf_not_converged")
+        raise Skip()
+    g = mf.nuc_grad_method()
+    g.grid_response = case["grid_response"]
+    g.verbose = 0
+    F = np.asarray(g.kernel())
+    ctx.finite(F, ("forces",))
+    gs = mf.nuc_grad_method()
+    gs.grid_response = case["grid_response"]
+    gs.verbose = 0
+    Fs = np.asarray(gs.kernel(mo_energy=np.asarray(mf.mo_energy)[::-1].copy(), mo_coeff=np.asarray(mf.mo_coeff)[::-1].copy(),
+                              mo_occ=np.asarray(mf.mo_occ)[::-1].copy()))
+    ctx.measure("force_spin_swap", float(np.max(np.abs(Fs - F))) / 1e-6)
+    ctx.close(Fs, F, ("force_spin_swap", fam, "open_shell", "grid_response" if case["grid_response"] else "no_grid_response"),
+              rtol=0, atol=1e-6)
+    if case["grid_response"]:
+        ctx.close(F.sum(0), np.zeros(3), ("sum_forces", "grid_response"), rtol=0, atol=1e-8)
+    ctx.nontrivial([G.mol_class(mspec), G.model_signature(case["model"]), case["df"], case["grid_response"],
+                    case["calc"]["plan_type"] if case["model"]["nldf"] else None])
 
 
 # ------------------------------------------------------------------------------------------------
